@@ -462,9 +462,11 @@ class RealNet:
                 if pipe.read_stalled and not self.draining:
                     # the peer stops reading (and answering) but keeps the connection, until the client's run is over; then it drains what
                     # is queued so that the client's close (queued behind unread data) can be observed
-                    while not self.stopping and not self.draining:
+                    t_stall = time.monotonic()
+                    while not self.stopping and not self.draining and time.monotonic() - t_stall < GIVE_UP:
                         time.sleep(0.002)
-                    if self.stopping:
+                    if self.stopping or not self.draining:
+                        pipe.events.append(("server-gave-up-waiting",))
                         return
                     state = "stall"
                     continue
